@@ -364,3 +364,22 @@ MUTANTS += [
     dict(id='c04-hessian-order-forward', props=['C04'], file=FD,
          old="        return dict(backward=1, forward=1).get(self.method, 2)\n\n    @order.setter", new="        return dict(backward=2, forward=1).get(self.method, 2)\n\n    @order.setter"),
 ]
+
+MUTANTS += [
+    dict(id='c17-num-coefs-table', props=['C17'], file=FB,
+         old="    correction = np.array([0, 0, 1, 3, 4, 7])[_get_logn(n)]", new="    correction = np.array([0, 0, 1, 3, 40, 7])[_get_logn(n)]"),
+    dict(id='c17-radius-power-sign', props=['C17'], file=FB,
+         old="            bs.append(bn * np.power(r, -mvec))", new="            bs.append(bn * np.power(r, -mvec) * (1 + 1e-9 * mvec))"),
+    dict(id='c17-derivative-errors-unscaled', props=['C17'], file=FB,
+         old="        info = _INFO(info_.error_estimate * fact, *info_[1:])", new="        info = _INFO(info_.error_estimate, *info_[1:])"),
+    dict(id='c17-failed-is-converged', props=['C17'], file=FB,
+         old="            failed = not converged", new="            failed = bool(converged) and i > 27"),
+    dict(id='c17-extrapolate-exponent', props=['C17'], file=FB,
+         old="        extrap0.append(richardson(bs, k=k, c=1.0 - (rs[k - 1] / rs[k]) ** m))", new="        extrap0.append(richardson(bs, k=k, c=1.0 - (rs[k - 1] / rs[k]) ** (m - 1)))"),
+    dict(id='c17-errors-tiny', props=['C17'], file=FB,
+         old="        errors = info.error_estimate\n", new="        errors = info.error_estimate * 1e-9\n"),
+    dict(id='c17-circle-endpoint', props=['C17'], file=FB,
+         old="    theta = np.linspace(0.0, 2.0 * np.pi, num=m, endpoint=False)", new="    theta = np.linspace(0.0, 2.0 * np.pi, num=m, endpoint=(m == 64))"),
+    dict(id='c17-fewer-coefs-returned', props=['C17'], file=FB,
+         old="            return coefs, info\n        return coefs\n", new="            return coefs[:self.n], info\n        return coefs[:self.n]\n"),
+]
